@@ -1,5 +1,6 @@
 mod c14;
 mod c17;
+mod c18;
 mod common;
 mod guard;
 
@@ -16,6 +17,7 @@ fn main() {
     match argv[1].as_str() {
         "c14" => c14::gen(&args),
         "c17" => c17::gen(&args),
+        "c18" => c18::gen(&args),
         other => {
             eprintln!("unknown subcommand {other}");
             std::process::exit(2);
